@@ -71,18 +71,17 @@ ASSUMPTIONS = [
     "a non-string cell offered to a text column by append_rows / append_column / write_column is refused by h5py "
     "only while the data are being stored; the code then rolls back (fixes ad11a3a, e4fbac6, 2f1693f) and the model "
     "refuses it up front: same observable outcome (error class, table unchanged)",
-    "numeric-literal strings offered to numeric columns, integers beyond 2^53 offered to float columns, out-of-range "
-    "integers offered through write_column (NumPy wraps uint8 there), out-of-range floats offered through "
-    "append_column (np.array casts silently) and NaN/inf are outside the modelled domain",
+    "numeric-literal strings offered to numeric columns, integers beyond 2^53 offered to float columns and NaN/inf "
+    "are outside the modelled domain (a number an integer column cannot hold is inside it: refused in every spelling "
+    "since fix ac50c5b)",
     "write_column takes homogeneous columns (np.array(column) would stringify a mixed one)",
     "unit strings are fixed points of units.sanitizer (C09 covers the sanitizer)",
     "OverflowError is canonicalised to ValueError, DuplicateColumnName to DuplicateName, h5py's OSError for an "
     "out-of-extent selection to IndexError",
     "rows given as a NumPy structured array hold, per field, cells of one kind that the positional conversions "
     "(tuple by tuple and NumPy's structured cast) treat alike: well-typed cells, bool / small int / float cells for "
-    "numeric columns; an out-of-range integer field handed to create_data_frame is cast by NumPy without a check "
-    "(outside the modelled domain, as for write_column); np.recarray (np.record rows) is not a structured-array "
-    "creation variant for the code (type(data[0]) == np.void)",
+    "numeric columns, numbers the column cannot hold (refused); np.recarray (np.record rows) is not a "
+    "structured-array creation variant for the code (type(data[0]) == np.void)",
     "read_columns(group_by_cols=True) is modelled for requested columns of one kind (NumPy converts columns of "
     "different kinds to a common type when it builds the 2-D result: numbers become strings next to a text column)",
     "frame names / block-level state are outside the single-frame model (duplicate frame name is an oracle case)",
@@ -176,6 +175,20 @@ def cell(v, dt=None):
 
 def row_cells(r):
     return [cell(r[n]) for n in r.dtype.names]
+
+
+def np_scalar(v, pres):
+    """the cell as the NumPy scalar of its kind (every third presentation)"""
+    nix, np = _nix()
+    if pres % 3 != 2:
+        return v
+    if isinstance(v, bool):
+        return np.bool_(v)
+    if isinstance(v, int):
+        return np.int64(v) if -2 ** 63 <= v < 2 ** 63 else v
+    if isinstance(v, float):
+        return np.float64(v)
+    return np.str_(v)
 
 
 def split_form(line):
@@ -417,8 +430,9 @@ class Session:
         if op == "append_column":
             col = [py(v) for v in a[0]]
             dt = None if a[2] is None else np_type(a[2], pres % 3)     # "<U5" is a creation-only spelling
-            # (an ndarray column of another integer width would be cast silently by np.array(column, dtype))
-            if dt is None and pres % 2 and col and len({type(x) for x in col}) == 1 and not isinstance(col[0], str):
+            if pres % 2 and col and len({type(x) for x in col}) == 1 and not isinstance(col[0], str) and \
+                    all(isinstance(x, (bool, float)) or -2 ** 63 <= x < 2 ** 63 for x in col):
+                # the column as an ndarray (of another width than the requested type, too: fix ac50c5b)
                 col = np.array(col)
             if dt is None and pres % 3 == 0:
                 df.append_column(col, a[1])
@@ -450,10 +464,10 @@ class Session:
             df.write_column(col, **kw)
             return None
         if op == "write_cell_pos":
-            df.write_cell(py(a[0]), position=list(a[1]) if pres % 2 else tuple(a[1]))
+            df.write_cell(np_scalar(py(a[0]), pres), position=list(a[1]) if pres % 2 else tuple(a[1]))
             return None
         if op == "write_cell_name":
-            df.write_cell(py(a[0]), col_name=a[1], row_idx=a[2] if pres % 2 else [a[2]])
+            df.write_cell(np_scalar(py(a[0]), pres), col_name=a[1], row_idx=a[2] if pres % 2 else [a[2]])
             return None
         if op == "set_units":
             df.units = list(a[0]) if pres % 2 else tuple(a[0])
@@ -564,7 +578,7 @@ FIELD_NAMES = ["n", "value", "flag", "label", "x0", "trial", "amp", "t", "col", 
 
 
 def fits(t, v):
-    """cell v converts exactly the same way cell by cell (tuple path) and field by field (structured cast)"""
+    """cell v of a structured array is converted like the Python scalar it stands for (the modelled conversion)"""
     k, x = v
     if t == "text":
         return k == "s"
@@ -574,13 +588,9 @@ def fits(t, v):
         return True
     if t == "f64":
         return k != "i" or abs(x) <= 2 ** 53
-    lo, hi = RANGE[t]
-    if k == "b":
-        return True
-    if k == "i":
-        return lo <= x <= hi
-    fr = Fraction(x)
-    return lo + 1 <= fr <= hi - 1
+    # an integer column: every number is converted from the Python scalar it stands for (range-checked), also
+    # when it comes as a field of a structured array (fix ac50c5b)
+    return True
 
 
 def field_type(rng, cells, t):
@@ -874,8 +884,7 @@ def gen_op(rng, st, stats):
             elif what == "dup":
                 name = rng.choice(names)
             elif n and dt is not None:
-                # np.array(column, dtype=int8) casts an out-of-range *float* silently (no OverflowError)
-                bad = gen_fault(rng, t, allow_text_fault=True, allow_float_overflow=False)
+                bad = gen_fault(rng, t, allow_text_fault=True)
                 if bad is not None:
                     col[rng.randrange(n)] = bad
             count("." + what)
@@ -952,7 +961,7 @@ def gen_op(rng, st, stats):
                       [enc_float(rng.choice([0.0, 1.5, 2.7, 100.25, 0.99])) for _ in range(n)]
         else:
             col = [gen_typed(rng, t) for _ in range(n)]
-            what = rng.choice(["short", "long", "unknown", "idx_oob", "none", "kind", "mixed"])
+            what = rng.choice(["short", "long", "unknown", "idx_oob", "none", "kind", "mixed", "overflow", "overflow"])
             if what == "short" and n:
                 col = col[:-1]
             elif what == "long":
@@ -968,6 +977,10 @@ def gen_op(rng, st, stats):
                     col = [["i", rng.randint(0, 9)] for _ in range(n)]
                 elif t != "bool":
                     col = [["s", rng.choice(BAD_NUM_STRS)] for _ in range(n)]
+            elif what == "overflow" and n and t in RANGE:
+                # a number the column type cannot hold (300 or -1 for uint8 ...): refused, nothing written
+                lo, hi = RANGE[t]
+                col[rng.randrange(n)] = ["i", rng.choice([hi + 1, lo - 1, hi + 45, lo - 200])]
             elif what == "mixed" and n and t in RANGE or (what == "mixed" and n and t == "f64"):
                 lo, hi = RANGE.get(t, (-1000, 1000))
                 col = [["i", rng.randint(max(lo, -100), min(hi, 100))] for _ in range(n)]
@@ -1553,8 +1566,18 @@ def oracle_op(rng, sh):
     if rng.random() < 0.2:
         # go on through another live object of the frame (index 4 = one more, fetched now)
         return ["handle", rng.randrange(5)], "accept"
+    def too_big(t):
+        lo, hi = RANGE[t]
+        return ["i", rng.choice([hi + 1, lo - 1, hi + 45, lo - 200])]
+    UNFIT = "a number the column type cannot hold"
     if kind == "append_rows":
         rows = gen_rows(rng, types, rng.choice([0, 1, 2, 3]))
+        ints = [c for c in range(m) if types[c] in RANGE and types[c] != "i64"]
+        if refuse and rows and ints and rng.random() < 0.3:
+            c = rng.choice(ints)
+            rows[rng.randrange(len(rows))][c] = too_big(types[c])
+            return with_form(["append_rows", rows], gen_form(rng, rows, names, types) if rng.random() < 0.4 else None), \
+                UNFIT
         if refuse and rows:
             i = rng.randrange(len(rows))
             rows[i] = rows[i][:-1] if rng.random() < 0.5 else rows[i] + [["i", 0]]
@@ -1572,7 +1595,10 @@ def oracle_op(rng, sh):
         name = rng.choice([x for x in NAME_POOL if x not in names and x != ""])
         col = [gen_typed(rng, t) for _ in range(n)]
         if refuse:
-            what = rng.choice(["short", "long", "dup"])
+            what = rng.choice(["short", "long", "dup", "unfit"])
+            if what == "unfit" and n and t in RANGE and t != "i64":
+                col[rng.randrange(n)] = too_big(t)
+                return ["append_column", col, name, t], UNFIT
             if what == "short" and n:
                 return ["append_column", col[:-1], name, dt], "a column of the wrong length"
             if what == "long":
@@ -1611,7 +1637,10 @@ def oracle_op(rng, sh):
         by = rng.choice(["index", "neg", "name"])
         index, name = (c, None) if by == "index" else (c - m, None) if by == "neg" else (None, names[c])
         if refuse:
-            what = rng.choice(["short", "long", "unknown", "idx"])
+            what = rng.choice(["short", "long", "unknown", "idx", "unfit", "unfit"])
+            if what == "unfit" and n and types[c] in RANGE and types[c] != "i64":
+                col[rng.randrange(n)] = too_big(types[c])
+                return ["write_column", col, index, name], UNFIT
             if what == "short" and n:
                 return ["write_column", col[:-1], index, name], "a column of the wrong length"
             if what == "long":
@@ -1622,6 +1651,10 @@ def oracle_op(rng, sh):
         return ["write_column", col, index, name], "accept"
     rr, c = legal_row(rng, n), rng.choice([0, m - 1, rng.randrange(m)])
     v = gen_typed(rng, types[c])
+    if refuse and types[c] in RANGE and types[c] != "i64" and rng.random() < 0.3:
+        if kind == "write_cell_pos":
+            return ["write_cell_pos", too_big(types[c]), [rr, c]], UNFIT
+        return ["write_cell_name", too_big(types[c]), names[c], rr], UNFIT
     if kind == "write_cell_pos":
         if refuse:
             what = rng.choice(["row", "col"])
@@ -1672,6 +1705,17 @@ FIXED_CASES = [
      {"line": ["write_column", [["i", 5], ["i", 6], ["i", 300]], 0, None], "expect": "a cell the column type refuses"},
      {"line": ["write_column", [["i", 5], ["s", "x"], ["i", 7]], None, "a"], "expect": "a cell the column type refuses"},
      _acc(["write_column", [["i", 7], ["i", 8], ["i", 9]], -2, None])],
+    # a number the column cannot hold is refused, however it is spelled (fix ac50c5b: write_column([300, 5]) stored 44
+    # in a uint8 column, -1 became 255; NumPy scalars / arrays / structured arrays were cast unchecked)
+    [["create_dict", [["k", "u8"], ["s", "text"]], [[["i", 1], ["s", "x"]], [["i", 2], ["s", "y"]]]],
+     {"line": ["write_column", [["i", 300], ["i", 5]], 0, None], "expect": "a number the column type cannot hold", "pres": 0},
+     {"line": ["write_column", [["i", -1], ["i", 5]], None, "k"], "expect": "a number the column type cannot hold", "pres": 1},
+     {"line": ["write_cell_pos", ["i", 256], [0, 0]], "expect": "a number the column type cannot hold", "pres": 2},
+     {"line": ["write_cell_name", ["i", -1], "k", -1], "expect": "a number the column type cannot hold", "pres": 5},
+     {"line": ["append_column", [["i", 300], ["i", 1]], "n", "u8"], "expect": "a number the column type cannot hold", "pres": 1},
+     {"line": ["append_rows", [[["i", 256], ["s", "z"]]], {"how": "array", "rec": [["a", "i64"], ["b", "text"]]}],
+      "expect": "a number the column type cannot hold", "pres": 0},
+     _acc(["write_column", [["i", 255], ["i", 0]], 0, None])],
     # a frame holding non-ASCII text: write_column rewrites whole rows read raw from the file (text as bytes);
     # regression of 61e9077 repaired by fix 6332817
     [["create_dict", [["s", "text"], ["k", "i8"]], [[["s", "\u00e9"], ["i", 1]], [["s", "\u4e2d\u6587"], ["i", 2]]]],
@@ -1839,10 +1883,10 @@ MANIFEST = {
     "level_note": "Partial aspects: h5py/libhdf5 storage and NumPy scalar conversion are modelled (conv, enc), not "
                   "verified; the UTF-8 round trip is Lean's own (String is a validated byte array); reopening is the "
                   "identity in the model and carried by the correspondence; floats are exact rationals (no arithmetic "
-                  "is done on cells); numeric-literal strings, ints beyond 2^53 for float columns, out-of-range ints "
-                  "through write_column or inside a structured array given to create_data_frame (NumPy casts without "
-                  "a check), NaN/inf, frame names, copy_from (oracle case only), compression and group_by_cols over "
-                  "columns of different kinds are outside the model. The positional reading of a structured array is "
+                  "is done on cells); numeric-literal strings, ints beyond 2^53 for float columns, NaN/inf, frame "
+                  "names, copy_from (oracle case only), compression and group_by_cols over columns of different kinds "
+                  "are outside the model (numbers an integer column cannot hold are inside: refused in every spelling "
+                  "since fix ac50c5b). The positional reading of a structured array is "
                   "the model's definition (what the repaired code does); the theorems state that names and layout "
                   "cannot matter, the differential runs check that the code agrees. The shape theorems are equalities "
                   "between a regenerated and a hand-written table: they detect an edit of the source, they do not "
